@@ -173,8 +173,18 @@ where
 {
     let Some(len) = T::Native::from_usize(len) else {
         if T::DATA_TYPE.is_integer() {
-            // the biggest representable value for T::Native is lower than len, e.g: u8::MAX < 512, no need to check bounds
-            return Ok(());
+            // the biggest representable value for T::Native is lower than len, e.g: u8::MAX < 512,
+            // so only negative indices can be out of bounds
+            return match indices
+                .iter()
+                .flatten()
+                .find(|index| *index < T::Native::ZERO)
+            {
+                Some(index) => Err(ArrowError::ComputeError(format!(
+                    "Array index out of bounds, cannot get item at index {index} from {len} entries"
+                ))),
+                None => Ok(()),
+            };
         } else {
             return Err(ArrowError::ComputeError("Cast to usize failed".to_string()));
         }
@@ -182,7 +192,7 @@ where
 
     if indices.null_count() > 0 {
         indices.iter().flatten().try_for_each(|index| {
-            if index >= len {
+            if index < T::Native::ZERO || index >= len {
                 return Err(ArrowError::ComputeError(format!(
                     "Array index out of bounds, cannot get item at index {index} from {len} entries"
                 )));
